@@ -165,6 +165,9 @@ func (g *vfGen) ttl(t *rapid.T, s *vfSM) int64 {
 		return int64(rapid.Int64Range(1, int64(30*time.Second)).Draw(t, "ttlns"))
 	case 7:
 		return int64(time.Duration(s.cfg.BucketSecs) * time.Second)
+	case 8:
+		// "for every ttl value": very long TTLs, up to the largest Duration
+		return rapid.SampledFrom([]int64{int64(time.Hour), 24 * 365 * int64(time.Hour), 250 * 365 * 24 * int64(time.Hour), 1<<63 - 1, 1<<63 - 1 - int64(time.Second)}).Draw(t, "longttl")
 	default:
 		return int64(rapid.IntRange(1, 3000).Draw(t, "ttlms")) * int64(time.Millisecond)
 	}
@@ -224,7 +227,7 @@ func (g *vfGen) next(t *rapid.T, s *vfSM) vfOp {
 		if len(ks) > 0 && rapid.IntRange(0, 1).Draw(t, "toexp") == 0 {
 			k := ks[rapid.IntRange(0, len(ks)-1).Draw(t, "expkey")]
 			d := s.resident[k].exp.Sub(time.Now()) + time.Duration(rapid.IntRange(-1, 1).Draw(t, "expdelta"))
-			if d > 0 {
+			if d > 0 && d < 100*time.Hour { // (sleeping for centuries on the fake clock crashes the Go runtime's timer code)
 				// observe right there
 				g.queue = append(g.queue, vfOp{Kind: rapid.SampledFrom([]string{"get", "get", "getttl", "iter"}).Draw(t, "obs"), Key: k})
 				return vfOp{Kind: "advance", D: int64(d)}
